@@ -271,7 +271,9 @@ def history(ctx, data, sc, nops):
                 for name, t in asked:
                     if name in known:
                         ctx.violation('hist:resolve-asks-known', f're-solve prompted for {name}, which the file is known to hold', case)
-                if last_complete_solution[0] is not None:
+                if o.exc is not None and isinstance(o.exc, (configparser.Error, ValueError)) and 'nterpolation' in (type(o.exc).__name__ + str(o.exc)):
+                    ctx.violation('hist:resolve-raises', f're-solving on the written-back file raised {o.exc!r}: the file habutax wrote cannot be read by habutax', case)
+                elif last_complete_solution[0] is not None:
                     if o.exc is not None:
                         ctx.violation('hist:resolve-raises', f'after a complete answered run the re-solve on the written-back file raised {o.exc!r}', case)
                     elif asked:
